@@ -5,7 +5,7 @@
 Require Import PG.Base.Bytes PG.Base.GoSlice.
 Require Import PG.C19.StrModel PG.C19.BlockrangeModel PG.C19.SegmentModel PG.C19.ChecksumModel PG.C19.Spec.
 Require Import PG.C19.GrammarProofs PG.C19.ReadProofs PG.C19.LabelsProofs PG.C19.ChecksumProofs PG.C19.SegmentProofs PG.C19.DataDirProofs.
-Require Import PG.C19.SegNumProofs.
+Require Import PG.C19.SegNumProofs PG.C19.FirstPageProofs.
 
 (* ================= the block-range syntax: exactly  a | a:b | a: | :b  with 0 <= a <= b ================= *)
 (* For ALL byte strings: a string is accepted with the pair (lo, hi) iff it is in the grammar and
@@ -283,3 +283,11 @@ Proof.
   - apply verify_datadir_no_panic.
 Qed.
 Print Assumptions C19_no_panic.
+
+(* VerifyPageChecksum reports on ONE page: for buffers of at least a page its result depends on the first 8192 bytes only
+   (whatever follows them in the buffer).  Before the repair the empty-page test scanned the whole buffer. *)
+Theorem C19_verify_page_first_only : forall s s' num,
+  PageSize <= len s -> PageSize <= len s' -> sub (vis s) 0 8192 = sub (vis s') 0 8192 ->
+  VerifyPageChecksum s num = VerifyPageChecksum s' num.
+Proof. exact verify_page_first_only. Qed.
+Print Assumptions C19_verify_page_first_only.
